@@ -22,7 +22,7 @@ META = {
     "level": "model_checking",
     "technique": "TLA+ table/statement spec SQLTables.tla: invariants NotNullHolds/ChecksHold/GeneratedConsistent model-checked on a bounded exhaustive model with defaults, a stored generated column over two base columns, a CHECK over base columns and a CHECK over the generated column; TLC evaluates them on the tables logged from the real engine and validates every statement's outcome",
     "text": "No stored row makes an enforced CHECK FALSE or holds NULL in a NOT NULL column; a statement that would cause this fails (INSERT IGNORE / UPDATE IGNORE skip the row or store the zero value); omitted columns get their declared default; generated columns (stored and virtual) always equal their expression over the row's current values, and a CHECK over a generated column holds for that value.",
-    "note": "Warnings are not compared. INSERT .. SELECT reads the target table itself with ORDER BY over its full primary key and is not combined with ON DUPLICATE KEY UPDATE. Tables with a VIRTUAL generated column enforce no CHECK at all in the engine (open finding C19-virtual-column-disables-checks), so other CHECK defects are only visible on the tables whose generated columns are all STORED (about 7 of 8 tables with generated columns).",
+    "note": "Warnings are not compared. INSERT .. SELECT reads the target table itself with ORDER BY over its full primary key and is not combined with ON DUPLICATE KEY UPDATE. Tables with a VIRTUAL generated column enforce no CHECK at all in the engine (open finding C19-virtual-column-disables-checks), so other CHECK defects are only visible on the tables whose generated columns are all STORED (VirtualP = 0.12 per generated column: about one statement in nine of the quick tier runs on a table with a VIRTUAL column, measured in the evidence as statements_on_tables_with_virtual_column).",
 }
 
 RULE = ("seeded random schemas with NOT NULL, literal defaults, 1-2 CHECKs (over base and over generated columns) and 1-2 generated columns "
